@@ -119,6 +119,7 @@ STD_ALIASES = {'std::size_t': 'size_t', 'std::ptrdiff_t': 'ptrdiff_t', 'std::uin
                'std::memory_order': ('enum', 'std::memory_order'), 'std::align_val_t': 'size_t',
                'std::nullptr_t': ('ptr', ('b', 'void')), 'nullptr_t': ('ptr', ('b', 'void')),
                '__m128i': ('rec', '__m128i'), 'std::max_align_t': ('rec', 'max_align_t'),
+               '__useconds_t': 'unsigned int', '__time_t': 'long', '__syscall_slong_t': 'long', '__pid_t': 'int',
                'std::uint64_t': 'uint64_t', 'std::uint32_t': 'uint32_t', 'std::uint16_t': 'uint16_t',
                'std::uint8_t': 'uint8_t', 'std::int64_t': 'int64_t', 'std::int32_t': 'int32_t',
                'std::int16_t': 'int16_t', 'std::int8_t': 'int8_t', 'std::ssize_t': 'ssize_t'}
@@ -413,6 +414,8 @@ class Config:
         self.rename = {}             # cname -> cname
         self.scalar_records = {}     # record name -> C scalar type (e.g. std::atomic handled separately)
         self.outside_methods = {}    # record outside babylon -> set of method names lowered to extern C functions
+        self.type_aliases = {}       # sugar spelling clang prints (typedefs of libstdc++, names written inside a class) -> canonical spelling
+        self.opaque_sizes = {}       # record name -> (size, align): emitted as an opaque byte blob of clang's size
         self.aliases = []            # (normalised C++ name fragment, short replacement) applied before C names are formed
         for k, v in kw.items():
             setattr(self, k, v)
@@ -528,6 +531,11 @@ class Unit:
 
     def _scan_node(self, n):
         k = n.get('kind')
+        if k == 'CXXRecordDecl' and n.get('definitionData', {}).get('isLambda'):
+            loc = n.get('loc', {})
+            if 'expansionLoc' in loc:
+                loc = loc['expansionLoc']
+            n['_qn'] = norm_name('(lambda at %s:%s:%s)' % (n.get('_file'), n.get('_line'), loc.get('col')))
         if k in RECORD_KINDS and n.get('completeDefinition'):
             self.records.setdefault(self.qualname(n), n)
         elif k == 'EnumDecl':
@@ -556,6 +564,8 @@ class Unit:
         k = ty[0]
         if k == 'named':
             name = ty[1]
+            if name in self.cfg.type_aliases:
+                return self.resolve(parse_type(self.cfg.type_aliases[name]), ctx)
             if name in C_TYPEDEFS:
                 return ('b', name)
             if name in STD_ALIASES:
@@ -725,11 +735,16 @@ class Unit:
             out.append(('base', '__base_' + sanitize(bt[1].split('::')[-1]), bt))
         if dd.get('isPolymorphic') and not base_poly:
             out.insert(0, ('vptr', '__vptr', ('ptr', ('b', 'void'))))
+        is_lambda = bool(dd.get('isLambda'))
+        nf = 0
         for c in rec.get('inner', []):
             if c.get('kind') == 'FieldDecl':
                 if c.get('isBitfield'):
                     abort('bitfield', c)
-                out.append(('field', c.get('name') or ('__anon_%s' % c['id'][-4:]), c))
+                if is_lambda and not c.get('name'):
+                    c['_lambda_field'] = 'cap%d' % nf
+                nf += 1
+                out.append(('field', self.field_cname(c), c))
             elif c.get('kind') == 'IndirectFieldDecl':
                 pass
         return out
@@ -745,6 +760,9 @@ class Unit:
                 return int(v)
         return None
 
+    def field_cname(self, f):
+        return f.get('name') or f.get('_lambda_field') or ('__anon_L%s' % f.get('_line'))
+
     def emit_struct(self, name):
         if self.struct_state.get(name) in ('emitting', 'done'):
             if self.struct_state.get(name) == 'emitting':
@@ -752,6 +770,12 @@ class Unit:
             return
         rec = self.records.get(name)
         sn = self.struct_cname(name)
+        if name in self.cfg.opaque_sizes:
+            size, align = self.cfg.opaque_sizes[name]
+            self.struct_state[name] = 'done'
+            self.struct_text[name] = 'struct %s { char __opaque[%d]; } __attribute__((aligned(%d))); /* opaque: %s */' % (sn, size, align, name)
+            self.struct_order.append(name)
+            return
         if rec is None or name in self.cfg.opaque_records:
             # external / incomplete: predefined layouts for a few std things
             pre = PREDEFINED_STRUCTS.get(name)
@@ -784,11 +808,13 @@ class Unit:
                     checks.append((x['name'], cname))
         if not lines:
             lines.append('  char __empty;')
-        if kw == 'union':
-            abort('union record', rec)
         ra = self._aligned_attr(rec)
         al = ' __attribute__((aligned(%s)))' % ra if ra else ''
-        self.struct_text[name] = 'struct %s {\n%s\n}%s;' % (sn, '\n'.join(lines), al)
+        # a union is emitted as a struct wrapping an anonymous union, so that every record is 'struct <name>' in C
+        if kw == 'union':
+            self.struct_text[name] = 'struct %s { union {\n%s\n}; }%s;' % (sn, '\n'.join(lines), al)
+        else:
+            self.struct_text[name] = 'struct %s {\n%s\n}%s;' % (sn, '\n'.join(lines), al)
         self.struct_state[name] = 'done'
         self.struct_order.append(name)
         self.layout_checks.append((name, sn, checks, rec))
